@@ -209,6 +209,17 @@ class Simulation:
                 msg,
             )
 
+        if period.unit not in (
+            periods.DateUnit.isoformat + periods.DateUnit.isocalendar
+        ):
+            msg = (
+                f"Unable to ADD variable '{variable.name}' over the period "
+                f"{period}: eternal periods can't be summed over time."
+            )
+            raise ValueError(
+                msg,
+            )
+
         return sum(
             self.calculate(variable_name, sub_period)
             for sub_period in period.get_subperiods(variable.definition_period)
